@@ -59,7 +59,11 @@ class TlcResult:
         return self.rc == 0 and not self.invariant_violated and not self.deadlock and "Error:" not in self.out
 
     def tail(self, n=40):
-        return "\n".join(self.out.splitlines()[-n:])
+        lines = self.out.splitlines()
+        for i, l in enumerate(lines):
+            if l.startswith("Error:") or "is violated" in l or "Exception" in l:
+                return "\n".join(lines[i:i + n])
+        return "\n".join(lines[-n:])
 
 
 class Ctx:
@@ -245,6 +249,27 @@ class Ctx:
         rejects = read_cases(rej)
         self.traces_validated += len(events)
         return events, rejects
+
+    def run_many(self, jobs, timeout=120, workers=None):
+        """Run many short subprocesses in parallel. job = dict(argv=[...], stdin=path|None, cwd=dir|None,
+        env=dict|None).  Returns a list of dict(rc, out(bytes), err(str tail), timeout(bool)) in job order."""
+        from concurrent.futures import ThreadPoolExecutor
+
+        def one(j):
+            e = dict(os.environ)
+            e.update(j.get("env") or {})
+            fin = open(j["stdin"], "rb") if j.get("stdin") else subprocess.DEVNULL
+            try:
+                p = subprocess.run(j["argv"], stdin=fin, cwd=j.get("cwd"), env=e, capture_output=True,
+                                   timeout=j.get("timeout", timeout))
+                return {"rc": p.returncode, "out": p.stdout, "err": p.stderr.decode("utf8", "replace")[-2000:], "timeout": False}
+            except subprocess.TimeoutExpired as ex:
+                return {"rc": -1, "out": ex.stdout or b"", "err": "timeout", "timeout": True}
+            finally:
+                if j.get("stdin"):
+                    fin.close()
+        with ThreadPoolExecutor(max_workers=workers or NCPU) as ex:
+            return list(ex.map(one, jobs))
 
     def path(self, name):
         return os.path.join(self.scratch, name)
